@@ -95,6 +95,10 @@ def proof_stage(rep, prop, imports, obligations, general_theorems, atoms_expr=No
     bad_axioms = []
     if ok:
         axioms, _ = common.print_axioms(mod, thms)
+        # a property theorem that does not exist (or does not check) is an undischarged obligation
+        for t in thms:
+            if t not in axioms:
+                failed_thms.append(t)
         for t, ax in axioms.items():
             for a in ax:
                 if a not in common.ALLOWED_AXIOMS:
@@ -134,7 +138,7 @@ def report_proof_failures(rep, prop, res, diff_keys_by_group):
                                              "note": "the decidable instance obligation evaluates to false on the "
                                                      "regenerated model; no input on which the real code and the "
                                                      "Spec differ was found"}, no_input=True)
-    if not res["build_ok"] and not res["failed_atoms"]:
+    if res["failed_theorems"] and not res["failed_atoms"]:
         for t in res["failed_theorems"]:
             rep.violation("theorem:" + t, {"kind": "proof-does-not-check", "theorem": t,
                                            "log": res["build_log"][-1500:]}, no_input=True)
